@@ -45,6 +45,11 @@ type pppoeRun struct {
 	bad     bool
 	lc      *localCounts
 	tag     string
+	// states extension (pppoe_states_test.go): sessions created / removed through another entry point
+	// (a PPPoE server fed frames); nil = the manager's own CreateSession / RemoveSession
+	createFn func(mac int) (*pppoe.Session, error)
+	removeFn func(s *psess, id uint16)
+	states   bool // the history changed the state of a session
 }
 
 func newPppoeRun(start uint16, pre int, lc *localCounts) *pppoeRun {
@@ -83,7 +88,16 @@ func (r *pppoeRun) create(mac int) {
 	r.last, r.lastRm = "create", nil
 	r.lc.count("pppoe_op_create", 1)
 	before := r.m.VerifC20NextID()
-	s, err := r.m.CreateSession(pppoeMACs[mac], pppoeServerMAC)
+	var s *pppoe.Session
+	var err error
+	if r.createFn != nil {
+		s, err = r.createFn(mac)
+	} else {
+		s, err = r.m.CreateSession(pppoeMACs[mac], pppoeServerMAC)
+	}
+	if err == errNoVerdict {
+		return
+	}
 	if err != nil {
 		r.logf("CreateSession(m%d)=err(%v)", mac, err)
 		r.fail(pppoeComp+".CreateSession", "released-key-reusable", "create-failed", fmt.Sprintf("CreateSession failed with %d live sessions: %v", len(r.liveSet()), err), true)
@@ -101,9 +115,14 @@ func (r *pppoeRun) create(mac int) {
 		}
 		r.fail(pppoeComp+".CreateSession", "id-nonzero", cl, fmt.Sprintf("CreateSession issued the reserved session id 0 (counter before the call: %d)", before), false)
 	}
+	r.noteScan(before, s.ID)
 	for _, o := range r.liveSet() {
 		if o.id == s.ID {
-			r.fail(pppoeComp+".CreateSession", "id-unique", "live-id-reissued", fmt.Sprintf("CreateSession issued id %d which a live session of m%d holds", s.ID, o.mac), true)
+			cl, st := "live-id-reissued", o.ptr.GetState()
+			if st != pppoe.StateDiscovery {
+				cl += "-holder-in-state-" + stateName(st)
+			}
+			r.fail(pppoeComp+".CreateSession", "id-unique", cl, fmt.Sprintf("CreateSession issued id %d which a session of m%d (state %s) holds in the table", s.ID, o.mac, st), true)
 			return
 		}
 		if o.mac == mac {
@@ -123,7 +142,11 @@ func (r *pppoeRun) remove(slot int) {
 	if slot >= len(r.created) {
 		id := uint16(40000 + slot)
 		r.last = "remove-unknown"
-		r.m.RemoveSession(id)
+		if r.removeFn != nil {
+			r.removeFn(nil, id)
+		} else {
+			r.m.RemoveSession(id)
+		}
 		r.logf("RemoveSession(%d) (never issued)", id)
 		return
 	}
@@ -142,7 +165,11 @@ func (r *pppoeRun) remove(slot int) {
 		s.live = false
 		r.lastRm = s
 	}
-	r.m.RemoveSession(s.id)
+	if r.removeFn != nil {
+		r.removeFn(r.lastRm, s.id)
+	} else {
+		r.m.RemoveSession(s.id)
+	}
 	r.logf("RemoveSession(%d)", s.id)
 }
 
@@ -247,7 +274,11 @@ func describeSess(s *pppoe.Session) string {
 func (r *pppoeRun) stateKey() string {
 	var parts []string
 	for _, s := range r.liveSet() {
-		parts = append(parts, fmt.Sprintf("%d:m%d", s.id, s.mac))
+		if st := s.ptr.GetState(); st != pppoe.StateDiscovery {
+			parts = append(parts, fmt.Sprintf("%d:m%d:s%d", s.id, s.mac, int(st)))
+		} else {
+			parts = append(parts, fmt.Sprintf("%d:m%d", s.id, s.mac))
+		}
 	}
 	sort.Strings(parts)
 	return r.tag + "|" + strings.Join(parts, ",")
